@@ -29,6 +29,7 @@ type c18Job struct {
 	ID    string   // as written
 	Needs []string // as written, in written order
 	Line  int      // line of the job key
+	Stub  string   // "" or what stands in place of the job's body: "~" (nothing / null) or a scalar - a job being written
 }
 
 type c18Graph struct {
@@ -62,6 +63,7 @@ func genC18(c *Chooser) *c18Graph {
 	}
 	shape := c.Int("world.shape", 7)
 	allowDangling := c.Weighted("world.dangle", 1, 4)
+	allowStubs := c.Weighted("world.stubs", 1, 6)
 	posOf := make([]int, n) // position of each vertex in the definition order
 	for i, v := range order {
 		posOf[v] = i
@@ -115,6 +117,14 @@ func genC18(c *Chooser) *c18Graph {
 		if allowDangling && c.Weighted("world.dangling", 1, 4) {
 			job.Needs = append(job.Needs, c18Case(c, "zz"+strconv.Itoa(c.Int("world.dname", 2))))
 		}
+		if allowStubs && c.Weighted("world.stub", 1, 3) {
+			// the job exists (its id is a key of `jobs`) but its body is not written yet: it needs nothing
+			job.Needs = nil
+			job.Stub = []string{"~", "", "todo"}[c.Int("world.stubkind", 3)]
+			if job.Stub == "" {
+				job.Stub = " "
+			}
+		}
 		// random order of needs entries
 		for i := len(job.Needs) - 1; i > 0; i-- {
 			j := i - c.Int("world.needorder", i+1)
@@ -132,6 +142,11 @@ func (g *c18Graph) yaml(c *Chooser) string {
 	for i := range g.Jobs {
 		j := &g.Jobs[i]
 		j.Line = line
+		if j.Stub != "" {
+			fmt.Fprintf(&b, "  %s: %s\n", j.ID, strings.TrimSpace(j.Stub))
+			line++
+			continue
+		}
 		fmt.Fprintf(&b, "  %s:\n", j.ID)
 		line++
 		if len(j.Needs) == 1 && c.Bool("world.scalarneeds") {
@@ -330,7 +345,16 @@ func c18Check(g *c18Graph, m *c18Model, errs []ErrRec) *Violation {
 	}
 	gotDangling := map[[2]string]int{}
 	var cycles []ErrRec
+	stubLine := map[int]bool{}
+	for _, j := range g.Jobs {
+		if j.Stub != "" {
+			stubLine[j.Line] = true
+		}
+	}
 	for _, e := range errs {
+		if e.Kind == "syntax-check" && stubLine[e.Line] {
+			continue // what the parser says about the unwritten body of a stub job
+		}
 		if e.Kind != "job-needs" {
 			// the generated workflows are otherwise clean
 			return &Violation{Oracle: "clean-otherwise", Class: "foreign:" + e.Kind, Message: "unexpected diagnostic on a generated needs-graph workflow: " + e.String()}
